@@ -262,7 +262,7 @@ func checkC03(c *Check) {
 					}
 				}
 				if ret, ok := t.Instrs[len(t.Instrs)-1].(*ssa.Return); ok && len(ret.Results) == 1 {
-					if cv, ok := ret.Results[0].(*ssa.Const); ok && cv.Value != nil && cv.Value.String() == "true" {
+					if cv, ok := retVal(ret, 0).(*ssa.Const); ok && cv.Value != nil && cv.Value.String() == "true" {
 						B[k] = true
 					}
 				}
